@@ -31,7 +31,7 @@ ANCHORS = [
     "stereomolgraph.algorithms.color_refine:_reaction_generator",
 ]
 REQUIRED_ANCHORS = ANCHORS
-REQUIRED = ["hash_pairs", "process_graphs", "with_changes", "with_placeholder", "mirror_rewrites", "large_graphs", "scale_cases", "high_coordination_cases"]
+REQUIRED = ["hash_pairs", "process_graphs", "with_changes", "with_placeholder", "mirror_rewrites", "large_graphs", "scale_cases", "high_coordination_cases", "periodic_nets"]
 CASE_TIMEOUT = 1600
 
 
@@ -75,6 +75,14 @@ def gen_cases(ctx):
         yield {"kind": "variant", "cls": cls, "pg": pg_to_json(pg), "variant": ("rebuild", "relabel_copy", "derived")[k % 3], "bseed": seed // 3, "idmap": [[a, b] for a, b in m.items()], "high_coordination": deg}
     for k, nsz, cls, seed in gen.scale_specs(ctx, rng):
         yield {"kind": "variant", "cls": cls, "scale": nsz, "gseed": seed, "variant": ("rebuild", "derived", "relabel_copy", "relabel_inplace", "derived")[k % 5], "bseed": seed // 3}
+    # periodic nets (sheet / crystal supercells): tens of thousands of atoms that ALL have the same degree and are bonded
+    # to atoms of the same degree - one colour class as large as the graph (sizes below the library's 32767-atom limit)
+    nets = [("square", 132, "MolGraph"), ("square", 132, "CondensedReactionGraph")]
+    if ctx.tier == "thorough":
+        nets += [("square", 150, "MolGraph"), ("honeycomb", 106, "MolGraph"), ("triangular", 106, "CondensedReactionGraph"), ("honeycomb", 106, "StereoMolGraph"), ("square", 150, "StereoCondensedReactionGraph"), ("triangular", 120, "MolGraph")]
+    for k, (net, size, cls) in enumerate(nets):
+        if k % ctx.nshards == ctx.shard:
+            yield {"kind": "net", "net": net, "size": size, "cls": cls, "bseed": rng.randrange(1 << 30)}
     # process part: hash seeds are spread over the shards
     seeds = list(range(1, 5)) if ctx.tier == "quick" else [*range(1, 31), 4294967295, "random"]
     for k, hs in enumerate(seeds):
@@ -99,6 +107,8 @@ def check_case(ctx, case):
         return
     if case["kind"] == "process":
         return _process(ctx, case)
+    if case["kind"] == "net":
+        return _net(ctx, case)
     pg = case_pg(case)
     if "scale" in case:
         ctx.count("scale_cases")
@@ -139,6 +149,67 @@ def check_case(ctx, case):
         except Exception as e:  # noqa: BLE001
             ctx.violate(f"C03/set-raises:{type(e).__name__}/{cls}/{variant}/{fkey}", f"set/dict membership raised {e!r}", case)
     ctx.sample({"class": cls, "variant": variant, "graph": case_graph_for_sample(case), "hash": h1})
+
+
+def _net(ctx, case):
+    """a periodic net built row by row with ids 0..n-1 and the same net with permuted ids, shuffled insertion order of
+    atoms and bonds and swapped bond ends: equal hashes"""
+    from ..snapshot import classes
+
+    n, cls, net = case["size"], case["cls"], case["net"]
+    rng = random.Random(case["bseed"])
+    cell = 2 if net == "honeycomb" else 1
+
+    def idx(i, j, s=0):
+        return ((i % n) * n + (j % n)) * cell + s
+
+    atoms = [(idx(i, j, s), 6) for i in range(n) for j in range(n) for s in range(cell)]
+    for k in rng.sample(range(len(atoms)), 3):
+        atoms[k] = (atoms[k][0], rng.choice([7, 8, 14]))
+    bonds = []
+    for i in range(n):
+        for j in range(n):
+            if net == "honeycomb":
+                bonds += [(idx(i, j, 0), idx(i, j, 1)), (idx(i, j, 1), idx(i + 1, j, 0)), (idx(i, j, 1), idx(i, j + 1, 0))]
+            else:
+                bonds += [(idx(i, j), idx(i + 1, j)), (idx(i, j), idx(i, j + 1))]
+                if net == "triangular":
+                    bonds.append((idx(i, j), idx(i + 1, j + 1)))
+    roles = {}
+    if "Reaction" in cls:
+        for k in rng.sample(range(len(bonds)), 5):
+            roles[k] = rng.choice(["add_formed_bond", "add_broken_bond", "add_fleeting_bond"])
+
+    def make(perm, shuffle):
+        g = classes()[cls]()
+        A = list(atoms)
+        B = list(enumerate(bonds))
+        if shuffle:
+            rng.shuffle(A)
+            rng.shuffle(B)
+        for a, z in A:
+            g.add_atom(perm[a], z)
+        for k, (x, y) in B:
+            if shuffle and rng.random() < 0.5:
+                x, y = y, x
+            getattr(g, roles.get(k, "add_bond"))(perm[x], perm[y])
+        return g
+
+    ident = list(range(len(atoms)))
+    perm = ident[:]
+    rng.shuffle(perm)
+    ctx.count("periodic_nets")
+    ctx.count(f"net:{net}:{len(atoms)}-atoms")
+    ctx.case(("net", net, n, cls), True)
+    try:
+        h1, h2 = hash(make(ident, False)), hash(make(perm, True))
+    except Exception as e:  # noqa: BLE001
+        ctx.violate(f"C03/hash-raises:{type(e).__name__}/{cls}/net-{net}", f"hash of a periodic {net} net with {len(atoms)} atoms raised {e!r}", case)
+        return
+    ctx.count("hash_pairs")
+    if h1 != h2:
+        ctx.violate(f"C03/hash-differs/{cls}/renumbered+reordered/net-{net}", f"periodic {net} net, {len(atoms)} atoms of degree {3 if net == 'honeycomb' else 4 if net == 'square' else 6}: the row-by-row build and a renumbered, reordered build hash differently", case)
+    ctx.sample({"kind": "net", "net": net, "atoms": len(atoms), "class": cls, "hash": h1})
 
 
 def _process(ctx, case):
